@@ -16,7 +16,7 @@ from ..flows import canon_flow, compile_flow_sheet, rows_to_csv
 from ..gen import sheets as G
 
 MANIFEST = dict(
-    text="Proof: Lean theorems validCert_sound / flows_equiv_of_cert (an accepted bisimulation certificate implies equal observation traces for EVERY infinite sequence of contact replies, field/group values, random draws and sub-flow/webhook/airtime outcomes, under every interpretation of the tests). The verified checker is run by the driver on every generated core sheet between the REAL compiler's output and the reference interpretation refFlow (the statement of C02 made executable in Lean; reference_flow_closed: for EVERY sheet it is a closed flow, so no reference path ends for a structural reason). Universal over sheets: proved for ALL sheets of the fragment CoreSheet.inFragment (action rows and deciding rows — wait_for_response with or without timeout, split_by_value, split_by_group — with any number of conditional or unconditional edges: chains, trees, joins, last-edge-wins defaults, tests in row order, No Response branches; under the single-meaning conditions edgeOk / distinctTests, each with a kernel-checked negative witness) with the Lean compiler model (tied to the real parser by the exact comparison of C01) in place of the real compiler — C02_fragment / compile_refines_reference: if the model compiles the sheet and the reference exists, the traces agree for every answer stream (lock-step simulation of the compiler machine and the reference's pass 1; traces depend only on the index-resolved abstraction of a flow); the two inputs of the theorem (CoreSheet.toEvent / toRRow of one parsed row) are cross-checked against what the harness sends on every explored sheet. Outside the fragment (C02_fragment_full visible) the claim is decided per explored sheet.",
+    text="Proof: Lean theorems validCert_sound / flows_equiv_of_cert (an accepted bisimulation certificate implies equal observation traces for EVERY infinite sequence of contact replies, field/group values, random draws and sub-flow/webhook/airtime outcomes, under every interpretation of the tests). The verified checker is run by the driver on every generated core sheet between the REAL compiler's output and the reference interpretation refFlow (the statement of C02 made executable in Lean; reference_flow_closed: for EVERY sheet it is a closed flow, so no reference path ends for a structural reason). Universal over sheets: proved for ALL sheets of the fragment CoreSheet.inFragment (every row type of a core sheet except no_op and insert_as_block: action rows left unconditionally or conditionally — the compiler's router node behind the action node, two compiled nodes for one reference node —, wait_for_response with or without timeout, split_by_value, split_by_group, split_random, start_new_flow / call_webhook / transfer_airtime, go_to / hard_exit / loose_exit, with any number of conditional or unconditional edges: chains, trees, joins, last-edge-wins defaults, tests in row order, No Response branches, buckets, fixed outcomes, explicit category names; rows standing for themselves — no given node identifier or node name —; under the single-meaning conditions edgeOk / distinctTests / sameVars / freshNames, each with a kernel-checked negative witness) with the Lean compiler model (tied to the real parser by the exact comparison of C01) in place of the real compiler — C02_fragment / compile_refines_reference: if the model compiles the sheet and the reference exists, the traces agree for every answer stream (lock-step simulation of the compiler machine and the reference's pass 1; then a bisimulation up to node splitting between the index-resolved abstractions of the two flows, Flow.run_split); the two inputs of the theorem (CoreSheet.toEvent / toRRow of one parsed row) are cross-checked against what the harness sends on every explored sheet. Outside the fragment (C02_fragment_full visible) the claim is decided per explored sheet.",
     ref="§5 C02",
     note="Trusts: Lean kernel; certificate SEARCH is untrusted (only the validated certificate counts); harness canonicaliser of actions (invented uuids dropped) and the row→action/operand reference table (harness/gen/sheets.py reference_row); real RowParser used to parse the CSV rows for both sides. Domain: WFcore ∧ NoopStable sheets (DESIGN §5 C02 notes); known finding F-C02-b outside it.",
     technique="Lean 4 proof of bisimulation-certificate soundness + verified checker run on real compiler output vs executable reference semantics",
@@ -27,31 +27,38 @@ LVL = {"catNames": False, "resultName": True}
 
 class FragmentGen(G.SheetGen):
     """Sheets inside the fragment of the universal theorem (Lean: CoreSheet.inFragment, Props/C02.C02_fragment):
-    action rows and wait_for_response / split_by_value / split_by_group rows; action rows are left
-    unconditionally, conditions leaving a wait row name no variable, no edge carries a category name, tests
+    action rows, wait_for_response / split_by_value / split_by_group rows, start_new_flow / call_webhook /
+    transfer_airtime / split_random rows, go_to and hard/loose exit rows; the conditions leaving one action row name the
+    same variable (or none), conditions leaving a wait row name no variable, explicit category names are new when used, tests
     leaving one row are distinct.  Whether a sheet really is in the fragment is decided by the Lean predicate
     (driver op core.views), not by this generator."""
 
-    FRAG_ROUTERS = ["wait_for_response", "wait_for_response", "split_by_value", "split_by_group"]
+    FRAG_ROUTERS = ["wait_for_response", "wait_for_response", "split_by_value", "split_by_group",
+                    "start_new_flow", "call_webhook", "transfer_airtime", "split_random"]
 
     def _edge_for(self, src):
-        if src["type"] in G.ACTION_TYPES:
-            return {"value": "", "variable": "", "type": "", "name": ""}
+        if src["type"] == "split_random":
+            # named buckets (by value or by category name; a repeated name redirects the bucket) and unnamed ones
+            r = self.rng.random()
+            if r < 0.25:
+                return {"value": "", "variable": "", "type": "", "name": ""}
+            if r < 0.45:
+                return {"value": self.rng.choice(["x", "y"]), "variable": "", "type": "", "name": self.rng.choice(["A", "B", "E"])}
         return super()._edge_for(src)
-
-    def _fresh_test(self, src, cond):
-        c = super()._fresh_test(src, cond)
-        c["name"] = ""
-        return c
 
     def build(self):
         rng = self.rng
         self._last_group = None
         while len(self.rows) < self.n:
-            if not self.nodes or rng.random() < 0.55:
+            r = rng.random()
+            if not self.nodes or r < 0.5:
                 self._node_row(rng.choice(G.ACTION_TYPES))
-            else:
+            elif r < 0.8:
                 self._node_row(rng.choice(self.FRAG_ROUTERS))
+            elif r < 0.92:
+                self._goto_row()
+            else:
+                self._exit_row()
         return self.rows
 
 
@@ -190,7 +197,7 @@ def run(ck: core.Check):
         "equivalence is at observation level {operand, ordered tests with arguments, wait/timeout, result name}; category names are not part of C02's statement",
     ]
     ck.partial_gap = [
-        "C02_full (all sheets) is proved universally only on the fragment CoreSheet.inFragment (C02_fragment, with the Lean compiler model — tied to the real parser in C01 — in place of the real compiler; a quarter of the explored sheets is generated inside it — FragmentGen — and the evidence counts how many explored sheets lie inside it as decided by the Lean predicate: in_proved_fragment); outside it (C02_fragment_full: conditional edges leaving action rows, split_random, sub-flow/webhook/airtime rows, go_to, hard/loose exits, no_op, explicit category names, node merging, blocks) it is decided per explored sheet by the verified certificate checker on the real output",
+        "C02_full (all sheets) is proved universally only on the fragment CoreSheet.inFragment (C02_fragment, with the Lean compiler model — tied to the real parser in C01 — in place of the real compiler; a quarter of the explored sheets is generated inside it — FragmentGen — and the evidence counts how many explored sheets lie inside it as decided by the Lean predicate: in_proved_fragment); outside it (C02_fragment_full: no_op rows, rows naming an existing node — node merging —, blocks) it is decided per explored sheet by the verified certificate checker on the real output",
         "reference_flow_closed IS proved for every sheet (the reference interpretation is always a closed flow); the per-sheet closedB run on the reference flow is kept as a cross-check of the driver",
     ]
     rp = _parser()
